@@ -616,6 +616,26 @@ func (m *Manager) HandleStreamReset(streamID uint64, errorCode uint16) {
 	}
 }
 
+// ResetStreamsForPeer resets every stream whose first hop is peerID. It is
+// called when the connection to that peer is gone: the streams cannot continue
+// (frames in flight are lost), and they must not resume over a later connection
+// to the same peer. Returns the number of streams reset.
+func (m *Manager) ResetStreamsForPeer(peerID identity.AgentID, errorCode uint16) int {
+	m.mu.RLock()
+	var ids []uint64
+	for id, s := range m.streams {
+		if s.RemoteID == peerID {
+			ids = append(ids, id)
+		}
+	}
+	m.mu.RUnlock()
+
+	for _, id := range ids {
+		m.HandleStreamReset(id, errorCode)
+	}
+	return len(ids)
+}
+
 // StreamCount returns the number of active streams.
 func (m *Manager) StreamCount() int {
 	m.mu.RLock()
